@@ -45,6 +45,11 @@ def cases(tier, seed):
     for s in enum.sequences(range(6), 1, b['max_len']):
         for ei in range(3):
             yield (s, ei, seed, b['all_masks_upto'], b['container_upto'])
+    # larger scope: the long synthetic phases of C12 (hundreds of samples, noisy, reversing), block masks
+    from .c12 import long_phases
+    for name, _ in long_phases(seed):
+        for ei in range(3):
+            yield (('LONG', name), ei, seed, 0, 0)
     for n in range(2, b['templates'] + 1):
         for combo in itertools.product(range(len(TEMPLATES)), repeat=n):
             s = tuple(v for t in combo for v in TEMPLATES[t])
@@ -56,6 +61,10 @@ def decode_case(c):
     c = list(c)
     c[0] = tuple(c[0])
     return tuple(c)
+
+
+def signature(kind, case):
+    return kind
 
 
 def criteria(seg, edge):
@@ -72,8 +81,9 @@ def masks_for(n, allupto):
             yield np.array(m, dtype=bool)
     else:
         yield np.ones(n, dtype=bool)
-        for a in range(n):
-            for b in range(a + 1, n + 1):
+        stepa = 1 if n <= 40 else max(1, n // 9)
+        for a in range(0, n, stepa):
+            for b in range(a + 1, n + 1, stepa):
                 m = np.ones(n, dtype=bool)
                 m[a:b] = False
                 yield m
@@ -94,11 +104,15 @@ def check_case(case):
     s, ei, seed, allupto, contupto = case
     al = ALPHABETS[seed % len(ALPHABETS)]
     edge = EDGES[ei]
-    phase = np.array([al[i] for i in s])
+    if len(s) == 2 and s[0] == 'LONG':
+        from .c12 import long_phases
+        phase = dict(long_phases(seed))[s[1]]
+    else:
+        phase = np.array([al[i] for i in s])
     n = len(phase)
     viols = []
     trans = 0
-    desc = 'phase=%s phase_edge=%.4f' % (phase.tolist(), edge)
+    desc = 'phase=%s phase_edge=%.4f' % (phase.tolist() if n <= 20 else 'long %r' % (s,), edge)
     try:
         allv = np.asarray(get_cycle_vector(phase.copy(), return_good=False, phase_step=STEP))[:, 0]
     except Exception as e:
@@ -170,6 +184,8 @@ def check_case(case):
 
 def snippet(case, kind):
     s, ei, seed = case[:3]
+    if len(s) == 2 and s[0] == 'LONG':
+        return None
     al = ALPHABETS[seed % len(ALPHABETS)]
     return ('import numpy as np, emd\n'
             'p = np.array(%r); e = %r\n'
